@@ -237,6 +237,9 @@ func nonNilErrorPhiAware(v ssa.Value, at ssa.Instruction) (bool, string) {
 		}
 		return true, "every incoming value is non-nil"
 	}
+	if ok, why := nonNilError(v, at, 0); ok {
+		return true, why
+	}
 	// result of a private helper: every value it can return, under the facts at that return
 	if cases := valueCases(v, 0); len(cases) > 1 || (len(cases) == 1 && cases[0].Val != v) {
 		for _, vc := range cases {
